@@ -30,7 +30,10 @@ def label_repr(st, v, it):
     for a, (base, node) in it.label_atoms.items():
         if st.entails_eq(v - Lin.sym(a)) == "yes":
             return ("table", base)
-    e = st.enum_get(s)
+    a = alias_attr(st, v)
+    if a is not None:
+        s = a
+    e = st.enum_get(s) or st.enum_get(pure_sym(v))
     dom = frozenset(e[1]) if e and e[0] == "in" else None
     if dom and len(dom) == 1:
         return ("tok", next(iter(dom)))
